@@ -12,6 +12,7 @@ pub fn families(prop: &str, tier: Tier) -> Vec<Cfg> {
     match prop {
         "C01" => {
             let mut a = Cfg::base("C01-partial-writes-and-cancellation");
+            a.must_reach = vec!["operation cancelled with a packet half written"];
             a.props = vec!["C01"];
             a.ops = vec![OpK::Pub1, OpK::Pub2, OpK::Pub0, OpK::Sub, OpK::Unsub, OpK::Poll, OpK::Disconnect, OpK::DropConn];
             a.io = IoMenu::partial();
@@ -21,6 +22,7 @@ pub fn families(prop: &str, tier: Tier) -> Vec<Cfg> {
             a.dev = if q { 2 } else { 3 };
             a.max_reqs = 3;
             let mut b = Cfg::base("C01-faults-and-inbound");
+            b.must_reach = vec!["transport fault while a packet is half written", "operation cancelled with a packet half written"];
             b.props = vec!["C01"];
             b.ops = vec![OpK::Pub1, OpK::Pub2, OpK::Sub, OpK::Poll, OpK::Drive, OpK::Disconnect, OpK::DropConn];
             b.io = IoMenu::full();
@@ -61,11 +63,94 @@ pub fn families(prop: &str, tier: Tier) -> Vec<Cfg> {
                 d.dev = 2;
                 v.push(d);
             }
+            let mut e = Cfg::base("C01-rich-packets-large-connect");
+            e.must_reach = vec!["outbound packet with a two-byte remaining length written in pieces", "CONNECT of more than 127 bytes", "operation cancelled with a packet half written"];
+            e.props = vec!["C01"];
+            e.ops = vec![OpK::Pub1, OpK::Pub2, OpK::Pub0, OpK::Sub, OpK::Unsub, OpK::Poll, OpK::Disconnect, OpK::DropConn];
+            e.io = IoMenu::partial();
+            e.cancel = true;
+            rich(&mut e);
+            e.max_ops = if q { 4 } else { 5 };
+            e.max_conns = 2;
+            e.max_reqs = 2;
+            e.dev = 2;
+            v.push(e);
+            // the keep-alive timeout fires while a packet is half written; the application goes on calling
+            let mut f = Cfg::base("C01-keepalive-timeout-with-packet-half-written");
+            f.must_reach = vec!["keep-alive timeout (PINGREQ unanswered)", "keep-alive timeout while an outbound packet is half written"];
+            f.props = vec!["C01"];
+            f.keepalive = 10;
+            f.ops = vec![OpK::Pub1, OpK::Poll, OpK::Drive, OpK::Sleep];
+            f.sleeps = vec![5_000];
+            f.io = IoMenu::partial();
+            f.io.all_partials_upto = 4;
+            f.io.read_partial = false;
+            f.cancel = true;
+            f.broker.mute_pingresp = true;
+            f.max_ops = if q { 7 } else { 8 };
+            f.max_conns = 1;
+            f.max_reqs = 1;
+            f.dev = 2;
+            f.drain = false;
+            v.push(f);
+            // the broker sends more QoS 2 publishes than the client's Receive Maximum allows
+            let mut h = Cfg::base("C01-broker-exceeds-receive-maximum");
+            h.props = vec!["C01"];
+            h.ops = vec![OpK::Recv, OpK::Poll, OpK::Pub1];
+            h.io = IoMenu::benign();
+            h.io.write_pending = true;
+            h.cancel = true;
+            h.broker.script = (1..=10).map(|i| inpub(2, i)).collect();
+            h.broker.script_burst = true;
+            h.broker.overrun = true;
+            h.broker.fifo = true;
+            h.broker.reorder_window = 1;
+            h.max_ops = if q { 12 } else { 13 };
+            h.max_conns = 1;
+            h.max_reqs = 1;
+            h.dev = 1;
+            h.drain = false;
+            v.push(h);
+            // a packet of more than 64 KiB accepted by the transport in pieces
+            let mut g = Cfg::base("C01-packet-larger-than-64KiB");
+            g.must_reach = vec!["outbound packet of more than 65535 bytes accepted in pieces"];
+            g.props = vec!["C01"];
+            g.tx = 80_000;
+            g.payload_sizes = vec![70_000];
+            g.ops = vec![OpK::Pub1, OpK::Poll, OpK::DropConn];
+            g.io = IoMenu::partial();
+            g.io.all_partials_upto = 0;
+            g.io.read_partial = false;
+            g.io.read_pending = false;
+            g.cancel = true;
+            g.max_ops = 4;
+            g.max_conns = 2;
+            g.max_reqs = 1;
+            g.dev = if q { 2 } else { 3 };
+            v.push(g);
             v
+        }
+        "C09" => {
+            // C09 inside the scheduled world: what reaches the wire under partial writes, cancellation and
+            // replay is what the application asked for (the direct sweeps cover the field space)
+            let mut a = Cfg::base("C09-content-under-partial-writes-and-replay");
+            a.must_reach = vec!["outbound packet with a two-byte remaining length written in pieces", "CONNECT of more than 127 bytes"];
+            a.props = vec!["C09"];
+            a.ops = vec![OpK::Pub0, OpK::Pub1, OpK::Pub2, OpK::Sub, OpK::Unsub, OpK::Poll, OpK::DropConn];
+            a.io = IoMenu::partial();
+            a.cancel = true;
+            rich(&mut a);
+            a.pub_retain = vec![false, true];
+            a.max_ops = if q { 4 } else { 5 };
+            a.max_conns = 2;
+            a.max_reqs = 2;
+            a.dev = if q { 1 } else { 2 };
+            vec![a]
         }
         "C02" => {
             // connection death at every I/O call, cancellation, ack orders, resumed reconnects
             let mut a = Cfg::base("C02-crash-points-and-resume");
+            a.must_reach = vec!["replay of several packets on a resumed connection", "request retransmitted on a third connection"];
             a.props = vec!["C02"];
             a.ops = vec![OpK::Pub1, OpK::Pub2, OpK::Sub, OpK::Poll, OpK::DropConn];
             a.io = IoMenu::faults_only();
@@ -77,6 +162,7 @@ pub fn families(prop: &str, tier: Tier) -> Vec<Cfg> {
             a.max_reqs = if q { 3 } else { 4 };
             a.dev = if q { 1 } else { 2 };
             let mut b = Cfg::base("C02-partial-writes-then-death");
+            b.must_reach = vec!["transport fault while a packet is half written", "replay of several packets on a resumed connection"];
             b.props = vec!["C02"];
             b.ops = vec![OpK::Pub1, OpK::Poll, OpK::DropConn, OpK::Forget];
             b.io = IoMenu::full();
@@ -107,7 +193,34 @@ pub fn families(prop: &str, tier: Tier) -> Vec<Cfg> {
             d.max_conns = if q { 3 } else { 4 };
             d.max_reqs = 2;
             d.dev = 0;
-            vec![a, b, c, d]
+            let mut e = Cfg::base("C02-rich-packets-large-connect");
+            e.must_reach = vec!["outbound packet with a two-byte remaining length written in pieces", "CONNECT of more than 127 bytes", "replay of several packets on a resumed connection"];
+            e.props = vec!["C02"];
+            e.ops = vec![OpK::Pub1, OpK::Pub0, OpK::Sub, OpK::Poll, OpK::DropConn];
+            e.io = IoMenu::faults_only();
+            e.io.write_partial = true;
+            e.io.write_pending = true;
+            e.cancel = true;
+            rich(&mut e);
+            e.pub_retain = vec![false, true];
+            e.max_ops = if q { 6 } else { 7 };
+            e.max_conns = 3;
+            e.max_reqs = if q { 2 } else { 3 };
+            e.dev = if q { 1 } else { 2 };
+            // up to eight publishes in flight, acknowledged in any order, then resumed
+            let mut f = Cfg::base("C02-eight-in-flight");
+            f.must_reach = vec!["eight publishes unresolved at the broker", "replay of several packets on a resumed connection"];
+            f.props = vec!["C02"];
+            f.ops = vec![OpK::Pub1, OpK::Poll, OpK::DropConn];
+            f.io = IoMenu::benign();
+            f.broker.reorder_window = if q { 2 } else { 3 };
+            f.tx = 512;
+            f.preludes = vec![vec![OpK::Pub1; 8], vec![OpK::Pub1; 5]];
+            f.max_ops = if q { 14 } else { 16 };
+            f.max_conns = 2;
+            f.max_reqs = 10;
+            f.dev = 0;
+            vec![a, b, c, d, e, f]
         }
         "C03" => {
             let mut a = Cfg::base("C03-qos2-orders-and-crashes");
@@ -140,10 +253,43 @@ pub fn families(prop: &str, tier: Tier) -> Vec<Cfg> {
             c.max_conns = 2;
             c.max_reqs = if q { 3 } else { 4 };
             c.dev = 0;
-            vec![a, b, c]
+            let mut d = Cfg::base("C03-rich-packets-large-connect");
+            d.must_reach = vec!["outbound packet with a two-byte remaining length written in pieces", "CONNECT of more than 127 bytes"];
+            d.props = vec!["C03"];
+            d.ops = vec![OpK::Pub2, OpK::Pub0, OpK::Poll, OpK::DropConn];
+            d.io = IoMenu::faults_only();
+            d.io.write_partial = true;
+            d.io.write_pending = true;
+            d.cancel = true;
+            rich(&mut d);
+            d.pub_retain = vec![false, true];
+            d.max_ops = if q { 6 } else { 8 };
+            d.max_conns = 2;
+            d.max_reqs = if q { 2 } else { 3 };
+            d.dev = if q { 1 } else { 2 };
+            // up to eight exchanges under way at once (the release list full), PUBRECs and PUBCOMPs in any
+            // order within a window, then resumed
+            let mut e = Cfg::base("C03-eight-exchanges-under-way");
+            e.must_reach = vec!["eight publishes unresolved at the broker", "eight QoS 2 exchanges waiting for PUBCOMP", "nine or more requests live (publishes + subscribe/unsubscribe)"];
+            e.props = vec!["C03"];
+            e.ops = vec![OpK::Pub2, OpK::Poll, OpK::DropConn];
+            e.io = IoMenu::benign();
+            e.broker.reorder_window = 2;
+            e.tx = 512;
+            e.preludes = vec![
+                vec![OpK::Pub2; 8],
+                vec![OpK::Sub, OpK::Pub2, OpK::Pub2, OpK::Pub2, OpK::Pub2, OpK::Pub2, OpK::Pub2, OpK::Pub2],
+                vec![OpK::Sub, OpK::Unsub, OpK::Sub, OpK::Pub1, OpK::Pub2, OpK::Pub2, OpK::Pub2, OpK::Pub2],
+            ];
+            e.max_ops = if q { 15 } else { 17 };
+            e.max_conns = 2;
+            e.max_reqs = 10;
+            e.dev = 0;
+            vec![a, b, c, d, e]
         }
         "C04" => {
             let mut a = Cfg::base("C04-inbound-qos012-interleaved");
+            a.must_reach = vec!["inbound publish delivered with properties"];
             a.props = vec!["C04"];
             a.ops = vec![OpK::Poll, OpK::Pub1, OpK::Drive, OpK::DropConn];
             a.io = IoMenu::partial();
@@ -173,10 +319,54 @@ pub fn families(prop: &str, tier: Tier) -> Vec<Cfg> {
             b.max_conns = 2;
             b.max_reqs = 2;
             b.dev = 1;
-            vec![a, b]
+            // many inbound messages back to back in the transport, every read split anywhere once or twice
+            let mut c = Cfg::base("C04-inbound-burst");
+            c.must_reach = vec!["inbound publish delivered with properties"];
+            c.props = vec!["C04"];
+            c.ops = vec![OpK::Poll, OpK::Recv, OpK::DropConn];
+            c.io = IoMenu::benign();
+            c.io.read_partial = true;
+            c.io.all_partials_upto = 4;
+            c.io.write_pending = true;
+            c.broker.script = vec![
+                inpub(2, 1),
+                inpub(1, 2),
+                inpub(2, 3),
+                inpub(0, 0),
+                inpub_rich(2, 4),
+                inpub(1, 5),
+                inpub(2, 6),
+                inpub(2, 7),
+                inpub_rich(1, 8),
+                inpub(2, 9),
+            ];
+            c.broker.script_burst = true;
+            c.broker.fifo = true;
+            c.broker.reorder_window = 1;
+            c.rx = 256;
+            c.max_ops = if q { 12 } else { 14 };
+            c.max_conns = 2;
+            c.max_reqs = 0;
+            c.dev = if q { 1 } else { 2 };
+            // the inbound QoS 2 table full (eight identifiers pending) and the broker retransmits
+            let mut d = Cfg::base("C04-inbound-qos2-table-full-with-retransmissions");
+            d.must_reach = vec!["inbound QoS 2 table full (8 identifiers pending)", "broker retransmits a pending inbound QoS 2 publish while the table is full"];
+            d.props = vec!["C04"];
+            d.ops = vec![OpK::Recv, OpK::Poll, OpK::DropConn];
+            d.io = IoMenu::benign();
+            d.broker.script = (1..=8).map(|i| inpub(2, i)).chain(std::iter::once(inpub(1, 1))).collect();
+            d.broker.script_burst = true;
+            d.broker.dup_retransmit = true;
+            d.broker.reorder_window = 1;
+            d.max_ops = if q { 12 } else { 13 };
+            d.max_conns = 2;
+            d.max_reqs = 0;
+            d.dev = if q { 1 } else { 2 };
+            vec![a, b, c, d]
         }
         "C05" => {
             let mut a = Cfg::base("C05-handshake-variants");
+            a.must_reach = vec!["fresh broker session while requests were in flight", "replay of several packets on a resumed connection"];
             a.props = vec!["C05"];
             a.ops = vec![OpK::Pub1, OpK::Pub2, OpK::Sub, OpK::Unsub, OpK::Poll, OpK::DropConn];
             a.io = IoMenu::faults_only();
@@ -190,6 +380,20 @@ pub fn families(prop: &str, tier: Tier) -> Vec<Cfg> {
             a.max_conns = if q { 3 } else { 4 };
             a.max_reqs = if q { 2 } else { 3 };
             a.dev = if q { 1 } else { 2 };
+            let mut r = Cfg::base("C05-rich-packets-large-connect");
+            r.must_reach = vec!["CONNECT of more than 127 bytes", "fresh broker session while requests were in flight", "replay of several packets on a resumed connection"];
+            r.props = vec!["C05"];
+            r.ops = vec![OpK::Pub1, OpK::Pub2, OpK::Sub, OpK::Unsub, OpK::Poll, OpK::DropConn];
+            r.io = IoMenu::faults_only();
+            r.io.write_pending = true;
+            r.cancel = true;
+            r.broker.may_lose_session = true;
+            r.broker.assigned_id = vec![None, Some("assigned-by-broker")];
+            rich(&mut r);
+            r.max_ops = if q { 6 } else { 7 };
+            r.max_conns = 3;
+            r.max_reqs = if q { 2 } else { 3 };
+            r.dev = if q { 1 } else { 2 };
             if !q {
                 // the full menu of handshake failures with two deviations is explored on three connections;
                 // four connections with one deviation
@@ -197,9 +401,9 @@ pub fn families(prop: &str, tier: Tier) -> Vec<Cfg> {
                 b.family = "C05-handshake-variants-four-connections";
                 b.dev = 1;
                 a.max_conns = 3;
-                return vec![a, b];
+                return vec![a, b, r];
             }
-            vec![a]
+            vec![a, r]
         }
         "C06" => {
             let mut v = Vec::new();
@@ -242,6 +446,7 @@ pub fn families(prop: &str, tier: Tier) -> Vec<Cfg> {
             v.push(c);
             // local limit: Receive Maximum above / at the local window of 8
             let mut b = Cfg::base("C06-receive-maximum-9-and-65535");
+            b.must_reach = vec!["eight publishes unresolved at the broker", "publish refused because the send window is full"];
             b.props = vec!["C06"];
             b.ops = vec![OpK::Pub2, OpK::Pub1, OpK::Poll];
             b.io = IoMenu::benign();
@@ -253,6 +458,21 @@ pub fn families(prop: &str, tier: Tier) -> Vec<Cfg> {
             b.max_reqs = if q { 10 } else { 11 };
             b.dev = 0;
             v.push(b);
+            // windows between the small ones and the local limit
+            let mut d = Cfg::base("C06-receive-maximum-4-to-8");
+            d.must_reach = vec!["eight publishes unresolved at the broker", "publish refused because the send window is full"];
+            d.props = vec!["C06"];
+            d.ops = vec![OpK::Pub1, OpK::Pub2, OpK::Poll, OpK::DropConn];
+            d.io = IoMenu::benign();
+            d.broker.receive_max = if q { vec![Some(4), Some(8)] } else { vec![Some(4), Some(5), Some(7), Some(8)] };
+            d.broker.reorder_window = 1;
+            d.broker.fifo = true;
+            d.tx = 512;
+            d.max_ops = if q { 13 } else { 15 };
+            d.max_conns = 2;
+            d.max_reqs = if q { 9 } else { 10 };
+            d.dev = 0;
+            v.push(d);
             v
         }
         "C07" => {
@@ -304,6 +524,7 @@ pub fn families(prop: &str, tier: Tier) -> Vec<Cfg> {
             a.drain = false;
             // keep-alive timeout as the fault
             let mut b = Cfg::base("C11-keepalive-timeout-then-every-call");
+            b.must_reach = vec!["keep-alive timeout (PINGREQ unanswered)"];
             b.props = vec!["C11"];
             b.keepalive = 10;
             b.ops = a.ops.clone();
@@ -347,9 +568,23 @@ pub fn families(prop: &str, tier: Tier) -> Vec<Cfg> {
             a.max_reqs = 2;
             a.dev = if q { 2 } else { 3 };
             // arena-filling retained payloads, tiny to roomy buffers
-            let mut v = vec![a];
+            let mut r = Cfg::base("C12-large-connect-after-failures");
+            r.must_reach = vec!["CONNECT of more than 127 bytes"];
+            r.props = vec!["C12"];
+            r.ops = vec![OpK::Pub1, OpK::Pub2, OpK::Sub, OpK::Poll, OpK::Disconnect, OpK::DropConn, OpK::IntoInner];
+            r.io = IoMenu::full();
+            r.cancel = true;
+            r.broker.bad_handshake = true;
+            r.broker.script = vec![inpub(2, 5)];
+            rich(&mut r);
+            r.max_ops = if q { 4 } else { 5 };
+            r.max_conns = if q { 2 } else { 3 };
+            r.max_reqs = 2;
+            r.dev = if q { 1 } else { 2 };
+            let mut v = vec![a, r];
             // the inbound QoS 2 table exactly full (and one short of full) when the connection is lost
             let mut t = Cfg::base("C12-inbound-qos2-table-full-at-connection-loss");
+            t.must_reach = vec!["inbound QoS 2 table full (8 identifiers pending)"];
             t.props = vec!["C12"];
             t.ops = vec![OpK::Recv, OpK::DropConn];
             t.io = IoMenu::benign();
@@ -386,6 +621,7 @@ pub fn families(prop: &str, tier: Tier) -> Vec<Cfg> {
         }
         "C13" => {
             let mut a = Cfg::base("C13-cancel-at-every-await-point");
+            a.must_reach = vec!["operation cancelled with a packet half written"];
             a.props = vec!["C13"];
             a.twin = Some(Twin::Cancel);
             a.drain_script = true;
@@ -461,7 +697,46 @@ pub fn families(prop: &str, tier: Tier) -> Vec<Cfg> {
             d.max_conns = 1;
             d.max_reqs = 3;
             d.dev = 2;
-            vec![a, b, c, d]
+            let mut e = Cfg::base("C13-rich-packets-large-connect");
+            e.must_reach = vec!["outbound packet with a two-byte remaining length written in pieces", "CONNECT of more than 127 bytes", "operation cancelled with a packet half written"];
+            e.props = vec!["C13"];
+            e.twin = Some(Twin::Cancel);
+            e.drain_script = true;
+            e.prune = false;
+            e.cancel = true;
+            e.cancel_connect = false;
+            e.ops = vec![OpK::Pub1, OpK::Pub2, OpK::Sub, OpK::Unsub, OpK::Poll];
+            e.io = IoMenu::partial();
+            rich(&mut e);
+            e.broker.reorder_window = 1;
+            e.broker.fifo = true;
+            e.max_ops = if q { 3 } else { 4 };
+            e.max_conns = 1;
+            e.max_reqs = 2;
+            e.dev = 2;
+            // cancellation at every read inside an inbound packet with a two-byte remaining length
+            let mut f = Cfg::base("C13-cancel-inside-large-inbound-packet");
+            f.must_reach = vec!["inbound packet with a two-byte remaining length read in pieces", "operation cancelled between the bytes of an inbound fixed header"];
+            f.props = vec!["C13"];
+            f.twin = Some(Twin::Cancel);
+            f.drain_script = true;
+            f.prune = false;
+            f.cancel = true;
+            f.cancel_connect = false;
+            f.rx = 512;
+            f.ops = vec![OpK::Poll, OpK::Recv, OpK::Drive];
+            f.io = IoMenu::benign();
+            f.io.read_pending = true;
+            f.io.read_partial = true;
+            f.io.all_partials_upto = 2;
+            f.broker.script = vec![inpub_big(0, 0), inpub(1, 11), inpub_big(2, 12)];
+            f.broker.reorder_window = 1;
+            f.broker.fifo = true;
+            f.max_ops = if q { 4 } else { 5 };
+            f.max_conns = 1;
+            f.max_reqs = 0;
+            f.dev = if q { 2 } else { 3 };
+            vec![a, b, c, d, e, f]
         }
         "C15" => {
             let mut a = Cfg::base("C15-partial-and-pending-transport-answers");
@@ -519,7 +794,63 @@ pub fn families(prop: &str, tier: Tier) -> Vec<Cfg> {
             d.max_conns = 1;
             d.max_reqs = 2;
             d.dev = 2;
-            vec![a, b, c, d]
+            let mut e = Cfg::base("C15-rich-packets-large-connect");
+            e.must_reach = vec!["outbound packet with a two-byte remaining length written in pieces", "CONNECT of more than 127 bytes"];
+            e.props = vec!["C15"];
+            e.twin = Some(Twin::Fragment);
+            e.drain_script = true;
+            e.prune = false;
+            e.ops = vec![OpK::Pub0, OpK::Pub1, OpK::Pub2, OpK::Sub, OpK::Unsub, OpK::Poll, OpK::DropConn];
+            e.io = IoMenu::partial();
+            rich(&mut e);
+            e.broker.reorder_window = 1;
+            e.broker.fifo = true;
+            e.max_ops = if q { 3 } else { 4 };
+            e.max_conns = 2;
+            e.max_reqs = 2;
+            e.dev = 2;
+            // inbound packets with a two-byte remaining length, keep-alive timers running
+            let mut f = Cfg::base("C15-large-inbound-packets-with-keepalive");
+            f.must_reach = vec!["inbound packet with a two-byte remaining length read in pieces"];
+            f.props = vec!["C15"];
+            f.twin = Some(Twin::Fragment);
+            f.drain_script = true;
+            f.prune = false;
+            f.keepalive = 10;
+            f.rx = 512;
+            f.ops = vec![OpK::Poll, OpK::Recv, OpK::Sleep];
+            f.sleeps = vec![5_000];
+            f.io = IoMenu::benign();
+            f.io.read_pending = true;
+            f.io.read_partial = true;
+            f.io.all_partials_upto = 2;
+            f.broker.script = vec![inpub_big(0, 0), inpub(1, 11), inpub_big(2, 12)];
+            f.broker.reorder_window = 1;
+            f.broker.fifo = true;
+            f.max_ops = if q { 4 } else { 5 };
+            f.max_conns = 1;
+            f.max_reqs = 0;
+            f.dev = if q { 2 } else { 3 };
+            let mut g = Cfg::base("C15-packet-larger-than-64KiB");
+            g.must_reach = vec!["outbound packet of more than 65535 bytes accepted in pieces"];
+            g.props = vec!["C15"];
+            g.twin = Some(Twin::Fragment);
+            g.drain_script = true;
+            g.prune = false;
+            g.tx = 80_000;
+            g.payload_sizes = vec![70_000];
+            g.ops = vec![OpK::Pub1, OpK::Poll];
+            g.io = IoMenu::partial();
+            g.io.all_partials_upto = 0;
+            g.io.read_partial = false;
+            g.io.read_pending = false;
+            g.broker.reorder_window = 1;
+            g.broker.fifo = true;
+            g.max_ops = 3;
+            g.max_conns = 1;
+            g.max_reqs = 1;
+            g.dev = if q { 2 } else { 3 };
+            vec![a, b, c, d, e, f, g]
         }
         "C16" => {
             let mut a = Cfg::base("C16-progress-after-partials-cancels-faults");
@@ -581,7 +912,49 @@ pub fn families(prop: &str, tier: Tier) -> Vec<Cfg> {
             e.max_conns = 1;
             e.max_reqs = 3;
             e.dev = 2;
-            vec![a, b, c, d, e]
+            let mut f = Cfg::base("C16-rich-packets-large-connect");
+            f.must_reach = vec!["outbound packet with a two-byte remaining length written in pieces", "CONNECT of more than 127 bytes"];
+            f.props = vec!["C16"];
+            f.ops = vec![OpK::Pub1, OpK::Pub2, OpK::Sub, OpK::Unsub, OpK::Poll, OpK::DropConn];
+            f.io = IoMenu::full();
+            f.cancel = true;
+            rich(&mut f);
+            f.max_ops = if q { 5 } else { 6 };
+            f.max_conns = 2;
+            f.max_reqs = if q { 2 } else { 3 };
+            f.dev = if q { 1 } else { 2 };
+            // all eight in-flight slots taken by a mix of request kinds, acknowledged within a window, resumed
+            let mut g = Cfg::base("C16-eight-requests-in-flight");
+            g.must_reach = vec!["eight publishes unresolved at the broker", "nine or more requests live (publishes + subscribe/unsubscribe)"];
+            g.props = vec!["C16"];
+            g.ops = vec![OpK::Pub1, OpK::Pub2, OpK::Sub, OpK::Poll, OpK::DropConn];
+            g.io = IoMenu::benign();
+            g.broker.reorder_window = 2;
+            g.tx = 512;
+            g.preludes = vec![
+                vec![OpK::Sub, OpK::Pub1, OpK::Pub2, OpK::Unsub, OpK::Pub2, OpK::Pub1, OpK::Pub2, OpK::Sub],
+                vec![OpK::Pub2; 8],
+            ];
+            g.max_ops = if q { 14 } else { 16 };
+            g.max_conns = 2;
+            g.max_reqs = 10;
+            g.dev = 0;
+            let mut h = Cfg::base("C16-packet-larger-than-64KiB");
+            h.must_reach = vec!["outbound packet of more than 65535 bytes accepted in pieces"];
+            h.props = vec!["C16"];
+            h.tx = 80_000;
+            h.payload_sizes = vec![70_000];
+            h.ops = vec![OpK::Pub1, OpK::Pub2, OpK::Poll, OpK::DropConn];
+            h.io = IoMenu::partial();
+            h.io.all_partials_upto = 0;
+            h.io.read_partial = false;
+            h.io.read_pending = false;
+            h.cancel = true;
+            h.max_ops = 4;
+            h.max_conns = 2;
+            h.max_reqs = 1;
+            h.dev = if q { 2 } else { 3 };
+            vec![a, b, c, d, e, f, g, h]
         }
         "C18" => {
             let mut a = Cfg::base("C18-status-after-every-step");
@@ -617,10 +990,50 @@ pub fn families(prop: &str, tier: Tier) -> Vec<Cfg> {
             c.max_conns = 1;
             c.max_reqs = 4;
             c.dev = 0;
-            vec![a, b, c]
+            let mut d = Cfg::base("C18-status-with-eight-requests-in-flight");
+            d.must_reach = vec!["eight publishes unresolved at the broker", "fresh broker session while requests were in flight"];
+            d.props = vec!["C18"];
+            d.ops = vec![OpK::Pub1, OpK::Pub2, OpK::Sub, OpK::Poll, OpK::DropConn];
+            d.io = IoMenu::benign();
+            d.broker.reorder_window = 2;
+            d.broker.ack_fail = true;
+            d.broker.may_lose_session = true;
+            d.tx = 512;
+            d.preludes = vec![
+                vec![OpK::Sub, OpK::Pub1, OpK::Pub2, OpK::Unsub, OpK::Pub2, OpK::Pub1, OpK::Pub2, OpK::Sub],
+                vec![OpK::Pub2; 8],
+            ];
+            d.max_ops = if q { 13 } else { 15 };
+            d.max_conns = 2;
+            d.max_reqs = 10;
+            d.dev = 0;
+            // SUBACK / UNSUBACK with one reason code per filter: any refused filter is a rejection
+            let mut e = Cfg::base("C18-per-filter-reason-codes");
+            e.must_reach = vec!["SUBACK/UNSUBACK mixing refused and granted filters"];
+            e.props = vec!["C18"];
+            e.ops = vec![OpK::Sub, OpK::Unsub, OpK::Poll, OpK::DropConn];
+            e.io = IoMenu::benign();
+            e.sub_counts = vec![2, 3, 1];
+            e.broker.ack_fail = true;
+            e.max_ops = if q { 6 } else { 8 };
+            e.max_conns = 2;
+            e.max_reqs = 3;
+            e.dev = 0;
+            vec![a, b, c, d, e]
         }
         _ => vec![],
     }
+}
+
+/// Outside the small world: long topics, properties, payloads needing a two-byte remaining length,
+/// several filters per SUBSCRIBE, a CONNECT of more than 128 bytes (will with properties, credentials).
+fn rich(c: &mut Cfg) {
+    c.tx = 1024;
+    c.payload_sizes = vec![2, 130];
+    c.pub_shapes = vec![0, 1, 2];
+    c.sub_counts = vec![1, 3];
+    c.big_connect = true;
+    c.io.all_partials_upto = 4;
 }
 
 /// An inbound publish with the RETAIN flag, a longer topic and several properties.
@@ -638,6 +1051,18 @@ pub fn inpub_rich(qos: u8, pid: u16) -> InPub {
             Prop { id: 0x08, val: PVal::Str(b"r/t".to_vec()) },
             Prop { id: 0x26, val: PVal::Pair(b"k".to_vec(), b"w".to_vec()) },
         ],
+    }
+}
+
+/// An inbound publish whose remaining length needs two bytes.
+pub fn inpub_big(qos: u8, pid: u16) -> InPub {
+    InPub {
+        qos,
+        pid,
+        retain: false,
+        topic: "in",
+        payload: vec![0xA0 | qos; 200],
+        props: vec![],
     }
 }
 
